@@ -245,6 +245,9 @@ func (w *scribbleWorld) Exec(p *Plan, st *RunStats) *Violation {
 				s.Step(op, o) // passed slices are scribbled right after the call, before the comparison
 			}
 		})
+		if traceOn {
+			trace("op %d %s -> %016x", op.ID, op.N, hashStr(s.Obs()))
+		}
 		if o.Failed() {
 			break
 		}
